@@ -79,3 +79,17 @@ Definition usable (r : rsection) : bool :=
   end.
 Definition kind_mid_r (r : rsection) : kind * option string := (r_kind r, Some (r_mid r)).
 Definition kind_mid_l (x : lsection) : kind * option string := (l_kind x, l_mid x).
+
+(* the answer mirrors the offer: same number of sections, same order, same
+   media type and mid *)
+Definition c07_mirrors (d : rdesc) (a : ldesc) : Prop :=
+  map kind_mid_l (l_secs a) = map kind_mid_r (r_secs d).
+(* every offered section has a mid and is application, or audio/video with a
+   direction attribute *)
+Definition offer_usable (d : rdesc) : Prop :=
+  forall r, In r (r_secs d) -> r_mid r <> "" /\ usable r = true.
+(* no transceiver already carries an offered audio/video mid with the other
+   media type *)
+Definition kinds_compatible (l : list tr) (d : rdesc) : Prop :=
+  forall t r k, In t l -> In r (r_secs d) -> t_mid t = r_mid r ->
+                media_kind (r_kind r) = Some k -> t_kind t = k.
